@@ -38,7 +38,7 @@ def fr(s):
 def make(cfg):
     """fresh NonnegMean for a configuration dict"""
     kw = {k: float(fr(v)) if isinstance(v, str) else v for k, v in cfg.get("kw", {}).items()}
-    N = cfg["N"] if cfg["N"] is not None else np.inf
+    N = cfg["N"] if cfg["N"] is not None else float("inf")  # an infinity of its own (not the object numpy.inf), as read from a file or computed
     return NonnegMean(
         test=TESTS[cfg["test"]],
         estim=ESTIMS[cfg.get("estim")],
@@ -370,6 +370,17 @@ def vlong_configs(tier):
                                        ("kaplan_markov", None, None, {"g": "1/8"}, "1/50", 400), ("kaplan_wald", None, None, {"g": "1/8"}, "1/50", 400),
                                        ("betting_mart", None, "fixed_bet", {"lam": "1"}, "1/2", 1300), ("alpha_mart", None, None, {"eta": "3/4"}, "1/2", 1300)):
         out.append({"test": test, "estim": estim, "bet": bet, "kw": kw, "u": "1", "t": t, "N": None, "H": L, "k": 2, "D": L, "paths": [1, L], "ro": True})
+    return out
+
+
+def near_tie_configs(tier):
+    """N = 4, t = 1/2: values 0, 1/2, 1 and 1 - 2^-18, so that running totals come within 2e-6 (relative) of N t without
+    equalling it: a tie rule with any tolerance coarser than rounding error changes these histories"""
+    out = []
+    for test, estim, bet, kw in (("alpha_mart", None, None, {"eta": "3/4"}), ("alpha_mart", "shrink_trunc", None, {"eta": "3/4"}), ("betting_mart", None, "fixed_bet", {"lam": "1/2"}),
+                                 ("kaplan_kolmogorov", None, None, {"g": 0}), ("wald_sprt", None, None, {"eta": "3/4"})):
+        out.append({"test": test, "estim": estim, "bet": bet, "kw": kw, "u": "1", "t": "1/2", "N": 4, "H": None, "k": 3, "D": 4,
+                    "vals": ["0", "1/2", "262143/262144", "1"], "ro": True})
     return out
 
 
